@@ -9,6 +9,6 @@ for SEED in "$@"; do
     OUT=$(VERIF_SEED=$SEED ./check $ID --tier $TIER --no-evidence 2>&1)
     RC=$?
     echo "$ID seed=$SEED rc=$RC $(echo "$OUT" | grep -E '^SUMMARY' | cut -c1-200)"
-    if [ $RC -ne 0 ]; then echo "$OUT" | grep -E '^(VIOLATION|DETAIL|HARNESS)' | cut -c1-400 | head -10; fi
+    if [ $RC -ne 0 ]; then echo "$OUT" | grep -E '^(VIOLATION|DETAIL|HARNESS)' | cut -c1-400 | head -10; echo "$OUT" | grep -A45 '^HARNESS-ERROR' | grep -v '^  File "/venv' | tail -25 | cut -c1-300; fi
   done
 done
